@@ -160,6 +160,22 @@ var c13Scenarios = []struct{ name, variant string }{
 	{"flowing", "cap16-consumed"},
 	{"read-idle", "no-input"},
 	{"read-busy", "prefilled"},
+	// c13_partial.go: cancellation while an unterminated partial record sits in the read buffer, every downstream state
+	{"partial-record", "audit/cap0"},
+	{"partial-record", "audit/cap1"},
+	{"partial-record", "audit/cap3"},
+	{"partial-record", "audit/cap16"},
+	{"partial-record", "audit/cap3-debug"},
+	{"partial-record", "audit/cap1-empty"},
+	{"partial-record", "audit/cap16-empty"},
+	{"partial-record", "sshd/password"},
+	{"partial-record", "sshd/publickey"},
+	{"partial-record", "sshd/publickey-padded"},
+	{"partial-record", "sshd/certificate"},
+	{"partial-record", "sshd/password/child-ctx"},
+	{"partial-record", "sshd/certificate/child-ctx"},
+	{"partial-record", "sshd/password/cut"},
+	{"partial-record", "sshd/certificate/cut"},
 }
 
 func runC13(sum *hutil.Summary, tmp string, busyReps int, seed uint64) {
@@ -235,6 +251,8 @@ func runC13Scenario(tmp, name, variant string, rep int) result {
 		scBackpressure(&r, dir, c, false)
 	case "flowing":
 		scBackpressure(&r, dir, 16, true)
+	case "partial-record":
+		scPartialRecord(&r, dir, variant)
 	case "read-idle":
 		scReadIdle(&r)
 	case "read-busy":
